@@ -114,7 +114,7 @@ def run(job):
     rng.seed(job.seed * 1000 + job.shard)
     n_hist = 10 if quick else 60
     job.bound = (f"{n_hist} seeded histories per shard x {SHARDS} shards of "
-                 f"8..14 declaration steps with invalid steps of 16 kinds "
+                 f"8..14 declaration steps with invalid steps of 17 kinds "
                  f"interleaved; invariant after every step, snapshot "
                  f"comparison around every rejected step")
     for hno in range(n_hist):
@@ -196,7 +196,7 @@ def run(job):
             return u
 
         def invalid(i):
-            kind = rng.randrange(16)
+            kind = rng.randrange(17)
             lin = [t for t in types if t.ref_unit is not None]
             snap = snapshot()
             sym = f"{tag}x{i}"
@@ -257,6 +257,28 @@ def run(job):
                 elif kind == 15:
                     Money.new_unit(sym, "x", minor_unit=2,
                                    smallest_fraction="0.001")
+                elif kind == 16 and len(lin) > 1:
+                    # new dimension, no symbol given, and the symbol generated
+                    # from the definition is already used by an unrelated type
+                    a, b = rng.sample(lin, 2)
+                    e = 5 + i % 3
+                    gen = str(Term(((a.ref_unit, e),)))
+                    try:
+                        Unit(gen)
+                    except ValueError:
+                        if b._quantum is None:
+                            units.append(b.new_unit(
+                                gen, define_as=Decimal(3) * b.ref_unit))
+                        else:
+                            return
+                    try:            # dimension taken by an earlier valid step?
+                        QuantityMeta._registry[a ** e]
+                        dim_taken = True
+                    except KeyError:
+                        dim_taken = False
+                    snap = snapshot()
+                    sym = gen
+                    QuantityMeta(f"{tag}X{i}", (Quantity,), {}, define_as=a ** e)
                 else:
                     return
                 job.case("rejected/raises", (kind, sym), False, "accepted",
@@ -266,7 +288,7 @@ def run(job):
             diff = same_snapshot(snap, snapshot())
             job.case("rejected/no-trace", (kind, sym), diff is None, diff,
                      "directories unchanged")
-            for s in (sym,):
+            for s in (() if kind == 16 else (sym,)):
                 try:
                     Unit(s)
                     job.case("rejected/symbol-unknown", (kind, s), False,
@@ -287,6 +309,18 @@ def run(job):
                     units.append(u)
                     job.case("rejected/symbol-available", (kind, sym),
                              Unit(sym) is u, "", "")
+            if kind == 16 and len(lin) > 1 and not dim_taken:
+                # the dimension stays available under a free symbol
+                try:
+                    c = QuantityMeta(f"{tag}Z{i}", (Quantity,), {},
+                                     define_as=a ** e,
+                                     ref_unit_symbol=f"{tag}z{i}")
+                    types.append(c)
+                    units.extend(c.units())
+                    job.case("rejected/dimension-available", (kind, sym), True)
+                except ValueError as ex:
+                    job.case("rejected/dimension-available", (kind, sym), False,
+                             repr(ex), "accepted")
             if kind == 2:
                 a = rng.choice(lin) if lin else P.Length
                 try:
